@@ -18,6 +18,13 @@ use std::io::{BufReader, Cursor, Read, Write};
 use std::path::PathBuf;
 use std::process::Command;
 
+/// user + system CPU time consumed by this process (all its threads), in microseconds
+fn thread_cpu_micros() -> u128 {
+    let mut ts = libc::timespec { tv_sec: 0, tv_nsec: 0 };
+    unsafe { libc::clock_gettime(libc::CLOCK_PROCESS_CPUTIME_ID, &mut ts) };
+    ts.tv_sec as u128 * 1_000_000 + ts.tv_nsec as u128 / 1000
+}
+
 const KINDS: [&str; 4] = ["lcov", "gcov", "gcovjson", "jacoco"];
 
 #[derive(Clone, Default)]
@@ -135,14 +142,15 @@ pub fn child(cases: &str, out: &str) {
         if kind == "gcov" || kind == "gcovjson" {
             std::fs::write(&path, &data).unwrap();
         }
-        let t0 = std::time::Instant::now();
+        // CPU time of this thread, not wall time: a loaded machine must not turn into a verdict
+        let t0 = thread_cpu_micros();
         let r = match kind {
             "lcov" => guarded(move || parse_lcov(data, true)),
             "gcov" => guarded(move || parse_gcov(&path)),
             "gcovjson" => guarded(move || parse_gcov_gz(&path)),
             _ => guarded(move || parse_jacoco_xml_report(BufReader::new(Cursor::new(data)))),
         };
-        let us = t0.elapsed().as_micros();
+        let us = thread_cpu_micros().saturating_sub(t0);
         let line = match &r {
             Ok(Ok(v)) => format!("ok {}", sizes_of(v)),
             Ok(Err(e)) => format!(
